@@ -22,8 +22,11 @@ def judge(case, prefix):
     # library defaults are min 1 / max 63; in constant-QP mode the configured bounds are documented as not applicable
     # ("only applicable when rate control mode is set to 1") and the library substitutes its defaults: the effective
     # bounds are what "clipped to those bounds" can mean there.
+    # qp 0 (qindex 0) would signal lossless coding, which the encoder does not implement: the library uses 1 as the
+    # smallest qp in every mode (constant QP always did; the rate-control modes do since fix 05e0778, before which a
+    # bound of 0 produced undecodable lossless-signalled frames). The effective bounds are therefore max(1, configured).
     if rc:
-        lo, hi = Q2QI[g("cfg.min_qp_allowed", 1)], Q2QI[g("cfg.max_qp_allowed", 63)]
+        lo, hi = Q2QI[max(1, g("cfg.min_qp_allowed", 1))], Q2QI[max(1, g("cfg.max_qp_allowed", 63))]
     else:
         lo, hi = Q2QI[1], Q2QI[63]
     pk = [d for _, d in enc.read_ivf(prefix + ".ivf")]
